@@ -1,6 +1,7 @@
 (** C06 - conversions are lossless or refused; lossy ones are correctly rounded and say so.
     ONLY statements pinned here; proofs live in Dashu.Conv.*. *)
-From Dashu Require Import Base.Prelude Float.RoundSpec Float.Contract Float.Model Conv.ConvSpec Conv.ConvModel Conv.ConvPrimProofs.
+From Dashu Require Import Base.Prelude Float.RoundSpec Float.Contract Float.Model Conv.ConvSpec Conv.ConvModel Conv.ConvPrimProofs
+  Conv.ConvArith Conv.ConvIeee Conv.ConvEncodeProofs Conv.ConvStickyProofs Conv.ConvDecodeProofs.
 Open Scope Z_scope.
 
 Theorem C06_ubig_to_prim : forall w sg TW v,
@@ -34,3 +35,80 @@ Theorem C06_prim_ibig_roundtrip : forall w sg TW v,
   ibig_to_prim w sg TW (prim_to_ibig sg TW v) = COk v.
 Proof. exact prim_ibig_roundtrip. Qed.
 Print Assumptions C06_prim_ibig_roundtrip.
+
+(** FloatEncoding::encode = round to nearest even with the true error sign, all mantissas and exponents *)
+Theorem C06_encode_f32 : forall m exp, - 2 ^ 31 <= m < 2 ^ 31 ->
+  encode_asis P32 m exp = ieee_rne F32 (fst (frac_of m exp)) (snd (frac_of m exp)).
+Proof. exact encode_f32_correct. Qed.
+Print Assumptions C06_encode_f32.
+
+Theorem C06_encode_f64 : forall m exp, - 2 ^ 63 <= m < 2 ^ 63 ->
+  encode_asis P64 m exp = ieee_rne F64 (fst (frac_of m exp)) (snd (frac_of m exp)).
+Proof. exact encode_f64_correct. Qed.
+Print Assumptions C06_encode_f64.
+
+(** the specification is odd in the source value (sign bit set, error sign mirrored) *)
+Theorem C06_spec_sign_symmetry : forall f N D, 0 < N -> 0 < D ->
+  ieee_rne f (- N) D = (fst (ieee_rne f N D) + sign_bit f, CompOpp (snd (ieee_rne f N D))).
+Proof. exact ieee_rne_opp. Qed.
+Print Assumptions C06_spec_sign_symmetry.
+
+(** truncation with a sticky bit keeps the correctly rounded result (two guard bits) *)
+Theorem C06_sticky_rounding : forall f v k, 0 < v -> 0 <= k -> prec f + 2 <= blen v - k -> 1 <= prec f ->
+  ieee_rne f (fst (frac_of (sticky_of v k) k)) (snd (frac_of (sticky_of v k) k)) = ieee_rne f v 1.
+Proof. exact ieee_rne_sticky. Qed.
+Print Assumptions C06_sticky_rounding.
+
+(** UBig::to_f32 / to_f64 on the multi-word route: every integer of at least 32 / 64 bits *)
+Theorem C06_to_f32_nontrivial : forall v, 32 <= blen v -> to_float_nontrivial P32 v = ieee_rne F32 v 1.
+Proof. exact to_f32_nontrivial_correct. Qed.
+Print Assumptions C06_to_f32_nontrivial.
+
+Theorem C06_to_f64_nontrivial : forall v, 64 <= blen v -> to_float_nontrivial P64 v = ieee_rne F64 v 1.
+Proof. exact to_f64_nontrivial_correct. Qed.
+Print Assumptions C06_to_f64_nontrivial.
+
+Theorem C06_ubig_to_f64_large : forall DW v, 64 <= DW -> 2 ^ DW <= v -> ubig_to_float P64 DW v = ieee_rne F64 v 1.
+Proof. exact ubig_to_f64_large. Qed.
+Print Assumptions C06_ubig_to_f64_large.
+
+Theorem C06_ubig_to_f32_large : forall DW v, 32 <= DW -> 2 ^ DW <= v -> ubig_to_float P32 DW v = ieee_rne F32 v 1.
+Proof. exact ubig_to_f32_large. Qed.
+Print Assumptions C06_ubig_to_f32_large.
+
+(** decode, and float -> integer conversions: only integers convert, with their exact value *)
+Theorem C06_decode_f32 : forall bits, 0 <= bits -> decode_asis P32 bits = decode_spec F32 bits.
+Proof. exact decode_f32_correct. Qed.
+Print Assumptions C06_decode_f32.
+
+Theorem C06_decode_f64 : forall bits, 0 <= bits -> decode_asis P64 bits = decode_spec F64 bits.
+Proof. exact decode_f64_correct. Qed.
+Print Assumptions C06_decode_f64.
+
+Theorem C06_float_to_int_f32 : forall uns bits, 0 <= bits ->
+  float_try_to_int P32 uns bits = float_to_int_spec F32 uns bits.
+Proof. exact float_try_to_int_f32. Qed.
+Print Assumptions C06_float_to_int_f32.
+
+Theorem C06_float_to_int_f64 : forall uns bits, 0 <= bits ->
+  float_try_to_int P64 uns bits = float_to_int_spec F64 uns bits.
+Proof. exact float_try_to_int_f64. Qed.
+Print Assumptions C06_float_to_int_f64.
+
+Theorem C06_float_to_int_only_if_exact : forall f uns bits v,
+  float_to_int_spec f uns bits = COk v ->
+  exists man exp, decode_spec f bits = DFin man exp /\
+    v * snd (frac_of man exp) = fst (frac_of man exp) /\ (uns = true -> 0 <= v).
+Proof. exact float_to_int_only_if_exact. Qed.
+Print Assumptions C06_float_to_int_only_if_exact.
+
+(** encode (decode bits) = Exact(bits) for every finite pattern but -0.0 *)
+Theorem C06_encode_decode_f32 : forall bits man exp, 0 <= bits < 2 ^ 32 ->
+  decode_spec F32 bits = DFin man exp -> bits <> 2 ^ 31 -> encode_asis P32 man exp = (bits, Eq).
+Proof. exact encode_decode_f32. Qed.
+Print Assumptions C06_encode_decode_f32.
+
+Theorem C06_encode_decode_f64 : forall bits man exp, 0 <= bits < 2 ^ 64 ->
+  decode_spec F64 bits = DFin man exp -> bits <> 2 ^ 63 -> encode_asis P64 man exp = (bits, Eq).
+Proof. exact encode_decode_f64. Qed.
+Print Assumptions C06_encode_decode_f64.
